@@ -24,7 +24,9 @@ package main
 
 import (
 	"fmt"
+	"strings"
 
+	"ariga.io/atlas/sql/postgres"
 	"ariga.io/atlas/sql/schema"
 )
 
@@ -37,16 +39,42 @@ type hCase struct {
 	edits    []*Edit
 }
 
-// sample builds the fixed sample of one variant.
-func historySample(vn string, thorough bool) (*profile, []hCase) {
-	mode := "mysql-" + vn
-	if vn == "default" {
-		mode = "mysql"
+// hVariant is one differ of the history stage: how to obtain a new one, and the profile whose
+// catalogue its answers are judged by.
+type hVariant struct {
+	name string
+	mode string // profile
+	open func() schema.Differ
+	bis  []int // bases sampled
+}
+
+func historyVariants(dialect string) []hVariant {
+	if dialect == "postgres" {
+		// postgres.DefaultDiff (no schema scope) and differs of the real opener over fake connections
+		// with search_path=public (fakepg.go): they differ in how user-defined type names are compared
+		return []hVariant{
+			{"default", "postgres", func() schema.Differ { return postgres.DefaultDiff }, []int{0, 1}},
+			{"public", "postgres-ns", func() schema.Differ { return scopedPGDiffer("public") }, []int{0, 1}},
+		}
 	}
-	p := newProfile(mode)
+	var out []hVariant
+	for _, vn := range []string{"default", "my57", "my80", "maria"} {
+		vn := vn
+		mode := "mysql-" + vn
+		if vn == "default" {
+			mode = "mysql"
+		}
+		out = append(out, hVariant{vn, mode, func() schema.Differ { return openMy(myVariants[vn]) }, []int{7, 0}}) // B8 (charsets), B1
+	}
+	return out
+}
+
+// sample builds the fixed sample of one variant.
+func historySample(hv hVariant, thorough bool) (*profile, []hCase) {
+	p := newProfile(hv.mode)
 	bs := bases(p)
 	var out []hCase
-	for _, bi := range []int{7, 0} { // B8 (charsets), B1
+	for _, bi := range hv.bis {
 		b := bs[bi]
 		seqParts(&b)
 		out = append(out, hCase{desc: fmt.Sprintf("B%d with itself", bi+1), from: b, to: b, alias: true, oracle: true})
@@ -56,7 +84,8 @@ func historySample(vn string, thorough bool) (*profile, []hCase) {
 		for ei := range cat {
 			e := &cat[ei]
 			// all charset / collation edits (they read the default tables); every 7th of the others
-			if !(e.Kind == "col-charset" || e.Kind == "col-charset-same" || e.Kind == "table-case" || ei%7 == 0 || thorough) {
+			if !(e.Kind == "col-charset" || e.Kind == "col-charset-same" || e.Kind == "table-case" || ei%7 == 0 || thorough ||
+				p.dialect == "postgres" && strings.Contains(e.Desc, "udt:")) {
 				continue
 			}
 			to := b.clone()
@@ -68,22 +97,28 @@ func historySample(vn string, thorough bool) (*profile, []hCase) {
 	return p, out
 }
 
-func (c *ctx) history(thorough bool) {
+func (c *ctx) history(dialect string, thorough bool) {
 	c.w.Rule = "a case is non-trivial when the differ returned at least one change or an error; key = variant, round and canonical answer"
-	names := []string{"default", "my57", "my80", "maria"}
+	hvs := historyVariants(dialect)
+	var names []string
+	opener := map[string]func() schema.Differ{}
 	profs := map[string]*profile{}
 	samples := map[string][]hCase{}
-	for _, vn := range names {
-		profs[vn], samples[vn] = historySample(vn, thorough)
+	for _, hv := range hvs {
+		names = append(names, hv.name)
+		opener[hv.name] = hv.open
+		profs[hv.name], samples[hv.name] = historySample(hv, thorough)
 	}
+	tokDialect = dialect
+	tag := "[" + dialect + "/"
 	alone := map[string][]string{}
 	// ask runs sample i of variant vn on differ d and returns the canonical answer.
 	ask := func(d schema.Differ, vn string, i int) (string, []schema.Change, error) {
 		h := samples[vn][i]
-		g1 := build("mysql", h.from)
+		g1 := build(dialect, h.from)
 		g2 := g1
 		if !h.alias {
-			g2 = build("mysql", h.to)
+			g2 = build(dialect, h.to)
 		}
 		c.differ = d
 		cs, err, pan := c.schemaDiff(g1, g2, 0)
@@ -106,7 +141,7 @@ func (c *ctx) history(thorough bool) {
 				c.w.NonTrivial(fmt.Sprintf("%s|%d|%s", vn, round, obs))
 			}
 			if obs != alone[vn][i] {
-				c.w.Violation(id, "history-dependent", fmt.Sprintf("[mysql/%s] %s: %s: the differ answered %s when used alone and %s now", vn, what, samples[vn][i].desc, alone[vn][i], obs))
+				c.w.Violation(id, "history-dependent", fmt.Sprintf("%s%s] %s: %s: the differ answered %s when used alone and %s now", tag, vn, what, samples[vn][i].desc, alone[vn][i], obs))
 			}
 		}
 	}
@@ -121,7 +156,7 @@ func (c *ctx) history(thorough bool) {
 	// variant; the alone answers are judged against the catalogue of the variant.
 	for _, vn := range names {
 		c.p = profs[vn]
-		d := openMy(myVariants[vn])
+		d := opener[vn]()
 		for i, h := range samples[vn] {
 			obs, cs, err := ask(d, vn, i)
 			alone[vn] = append(alone[vn], obs)
@@ -148,18 +183,24 @@ func (c *ctx) history(thorough bool) {
 	// as a difference between a fresh differ and the alone answer only if it is order dependent;
 	// the passes below therefore re-create the differs in other orders.)
 	// 2a. DefaultDiff after every connected differ was opened and used.
-	check("DefaultDiff after differs of 5.7, 8.0 and MariaDB servers were used", openMy(myVariants["default"]), "default", all("default"))
+	check("DefaultDiff after differs of other servers / scopes were used", opener["default"](), "default", all("default"))
 	// 2b. a new differ per connected variant, opened in reverse order, each after the others were used
 	fresh := map[string]schema.Differ{}
 	for i := len(names) - 1; i > 0; i-- {
 		vn := names[i]
-		fresh[vn] = openMy(myVariants[vn])
+		fresh[vn] = opener[vn]()
 		check("a new "+vn+" differ opened after differs of the other servers were used", fresh[vn], vn, all(vn))
 	}
 	// 2c. two connected differs of different versions used alternately, pair by pair
-	for _, pr := range [][2]string{{"my57", "my80"}, {"maria", "my57"}, {"my80", "maria"}, {"default", "my57"}} {
+	altPairs := [][2]string{{"my57", "my80"}, {"maria", "my57"}, {"my80", "maria"}, {"default", "my57"}}
+	crossPairs := [][2]string{{"my57", "my80"}, {"my80", "my57"}, {"default", "maria"}, {"maria", "default"}}
+	if dialect == "postgres" {
+		altPairs = [][2]string{{"default", "public"}, {"public", "public"}}
+		crossPairs = [][2]string{{"default", "public"}, {"public", "default"}}
+	}
+	for _, pr := range altPairs {
 		a, b := pr[0], pr[1]
-		da, db := openMy(myVariants[a]), openMy(myVariants[b])
+		da, db := opener[a](), opener[b]()
 		n := len(samples[a])
 		if len(samples[b]) > n {
 			n = len(samples[b])
@@ -180,7 +221,7 @@ func (c *ctx) history(thorough bool) {
 	for _, vn := range names[1:] {
 		check("the same "+vn+" differ asked a second time", fresh[vn], vn, all(vn))
 	}
-	check("DefaultDiff asked once more at the end", openMy(myVariants["default"]), "default", all("default"))
+	check("DefaultDiff asked once more at the end", opener["default"](), "default", all("default"))
 	// 3. history through the graphs: the differs complete / sort / rename parts of the graphs they are
 	// given (defaultCharset / defaultCollate append to the desired column's attributes, partsChange
 	// sorts the parts).  3a: the same differ asked twice about the very same pair of graphs;
@@ -188,10 +229,10 @@ func (c *ctx) history(thorough bool) {
 	onGraphs := func(what string, first, second schema.Differ, vn string) {
 		round++
 		for i, h := range samples[vn] {
-			g1 := build("mysql", h.from)
+			g1 := build(dialect, h.from)
 			g2 := g1
 			if !h.alias {
-				g2 = build("mysql", h.to)
+				g2 = build(dialect, h.to)
 			}
 			c.differ = first
 			c.schemaDiff(g1, g2, 0)
@@ -208,16 +249,16 @@ func (c *ctx) history(thorough bool) {
 				c.w.NonTrivial(fmt.Sprintf("%s|%d|%s", vn, round, obs))
 			}
 			if obs != alone[vn][i] {
-				c.w.Violation(id, "history-dependent-graph", fmt.Sprintf("[mysql/%s] %s: %s: the differ answered %s on fresh graphs and %s now", vn, what, h.desc, alone[vn][i], obs))
+				c.w.Violation(id, "history-dependent-graph", fmt.Sprintf("%s%s] %s: %s: the differ answered %s on fresh graphs and %s now", tag, vn, what, h.desc, alone[vn][i], obs))
 			}
 		}
 	}
 	for _, vn := range names {
-		d := openMy(myVariants[vn])
+		d := opener[vn]()
 		onGraphs("the same pair of graphs asked twice ("+vn+")", d, d, vn)
 	}
-	for _, pr := range [][2]string{{"my57", "my80"}, {"my80", "my57"}, {"default", "maria"}, {"maria", "default"}} {
-		onGraphs("graphs first shown to a "+pr[0]+" differ, then to the "+pr[1]+" differ", openMy(myVariants[pr[0]]), openMy(myVariants[pr[1]]), pr[1])
+	for _, pr := range crossPairs {
+		onGraphs("graphs first shown to a "+pr[0]+" differ, then to the "+pr[1]+" differ", opener[pr[0]](), opener[pr[1]](), pr[1])
 	}
 	c.w.Set("fake_server_queries", myQueries)
 }
